@@ -65,7 +65,7 @@ claims.update({
     text="HashToScalar with symbolic msg/DST: per DST length class the 48 expander bytes must equal the RFC 9380 5.3.1 term and the scalar must be OS2IP(those bytes) mod n (a + b·2^192 with the code's Montgomery constants, compared at byte granularity); empty DST panics before hashing. Level 'other': SHA-256 and Fiat word arithmetic trusted.",
     note="Not decided: crypto/sha256, Fiat word-level arithmetic.", ref="3 C09"),
 })
-EXTRA = " Also checked as part of this property's argument (static, structural): the Fiat-generated primitives reachable from its entry points are intact (E8: sibling data-flow cross-check of the two generated files, final conditional subtraction of each primitive, equal consecutive reduction rounds), the value types carry no state beyond the value fields the analysis ranges over, and every package-level variable referenced from its entry points is neither written outside init nor handed out by reference."
+EXTRA = " Also checked as part of this property's argument (static, structural): the Fiat-generated primitives reachable from its entry points are intact (E8: sibling data-flow cross-check of the two generated files, final conditional subtraction of each primitive, equal consecutive reduction rounds; E9: each of Mul, Square, ToMontgomery, FromMontgomery, Add, Sub, Opp satisfies its specification congruence as a polynomial identity over the input limbs - words as exact integer polynomials with fresh atoms for discarded high words, carries and borrows, every discarded low word proven 0 mod 2^64 - and SetOne, Nonzero are checked exactly; ranges are Fiat's proof obligations), the value types carry no state beyond the value fields the analysis ranges over, and every package-level variable referenced from its entry points is neither written outside init nor handed out by reference."
 for k in ["C01", "C02", "C03", "C04", "C05", "C06", "C07", "C08", "C09", "C11", "C13", "C14", "C18"]:
     claims[k]["text"] += EXTRA
 claims["C19"]["text"] += " C13's whole-value obligations for Equal/IsZero/IsOne are inherited (the IsOne exemption rests on them); an operand selected by a secret index among at most 16 table entries, or by a secret condition between two pointers, is followed for every alternative and the calls through it must have equal traces."
@@ -73,6 +73,8 @@ claims["C16"]["text"] += " No function may return memory of an object it hands b
 claims["C17"]["text"] += " The rule is repeated under every custom build tag the module's own files mention (GOEXPERIMENT for goexperiment.* and boringcrypto), and under one configuration per operating system / architecture named in a build constraint or file-name suffix plus one that none names; one-shot digest functions of an imported hash package count as direct uses. Inherited from C08/C09: no path of the hashing functions, the documented empty-DST panic included, leaves a shared pool in a state that makes a later call fail."
 claims["C18"]["text"] += " The induction over draws is checked, not assumed (C18.induction): before every entropy read the complete abstract state (registers of every frame, every reachable object, canonically numbered) is rendered; on the all-rejected path the state before draw k+1 must equal the state before draw k with block indices shifted by one, so an attempt counter, an accumulator or a stale buffer is reported."
 claims["C15"]["text"] += " Exempt by the append contract only: a function named Append... whose only writes to its slice parameter are appends behind its length and whose result is that extended slice. A fresh object whose address the function also stores into memory reachable from a parameter (a memo kept in the receiver) or into package-level state is not a fresh result."
+claims["C06"]["text"] += " Pow may also be a native fixed-window exponentiation over the Fiat arithmetic: its table look-ups, squarings and multiplications are followed as formal powers s^T with a term T as exponent, and T must equal the canonical integer of t in the basis of the exponent's digit tests."
+claims["C01"]["text"] += " A fixed-window multiplication (table of multiples, constant-time look-up per window) is followed as well: look-ups as sums weighted by mutually exclusive digit tests, the coefficient compared with the scalar's bits in the digit basis."
 claims["C05"]["text"] += " The .state obligation also covers the constructors that define the identity (NewElement, Identity)."
 pending = {}
 ids = ["C%02d" % i for i in range(1, 20)]
